@@ -42,10 +42,12 @@ def run(ctx):
     ctx.exhaustive_parts.append("every public/private name of nir, nir.ir, nir.ir.graph, nir.serialization, builtins "
                                 "+ case/whitespace variants of the 18 whitelisted names")
     for s in strings:
-        for where in ("top", "nested"):
+        for where in ("top", "nested", "bare", "bare-nested"):
             d = copy.deepcopy(victims[rng.choice(gen.LEAF_KINDS)])
             d["type"] = s
-            if where == "nested":
+            if where.startswith("bare"):
+                d = {"type": s}            # a class without mandatory fields would be constructible from this alone
+            if where.endswith("nested"):
                 d = {"type": "NIRGraph", "nodes": {"a": d}, "edges": []}
             case = {"op": "type_string", "s": s, "where": where}
             ctx.case(case); ctx.count("type_strings")
